@@ -17,6 +17,7 @@ use std::collections::BTreeMap;
 use std::sync::mpsc;
 use std::time::Duration;
 
+use hickory_proto::dnssec::rdata::DNSSECRData;
 use hickory_proto::rr::{Name, RData, Record, RecordSet, RrKey};
 use hickory_proto::serialize::txt::{ParseError, Parser};
 
@@ -56,6 +57,12 @@ fn rdata_tok(d: &RData, nm: &dyn Fn(&Name) -> String) -> String {
         }
         RData::HINFO(h) => format!("HINFO,{},{}", hex(&h.cpu), hex(&h.os)),
         RData::CAA(c) => format!("CAA,{},{},{},{}", c.issuer_critical as u8, c.reserved_flags, hex(c.tag.as_bytes()), hex(&c.value)),
+        RData::TLSA(t) => format!("TLSA,{},{},{},{}", u8::from(t.cert_usage), u8::from(t.selector), u8::from(t.matching), hex(&t.cert_data)),
+        RData::SMIMEA(t) => format!("SMIMEA,{},{},{},{}", u8::from(t.0.cert_usage), u8::from(t.0.selector), u8::from(t.0.matching), hex(&t.0.cert_data)),
+        RData::SSHFP(f) => format!("SSHFP,{},{},{}", u8::from(f.algorithm), u8::from(f.fingerprint_type), hex(&f.fingerprint)),
+        RData::DNSSEC(DNSSECRData::DS(d)) => format!("DS,{},{},{},{}", d.key_tag(), u8::from(d.algorithm()), u8::from(d.digest_type()), hex(d.digest())),
+        RData::CERT(c) => format!("CERT,{},{},{},{}", u16::from(c.cert_type), c.key_tag, u8::from(c.algorithm), hex(&c.cert_data)),
+        RData::OPENPGPKEY(k) => format!("OPENPGPKEY,{}", hex(&k.public_key)),
         other => format!("X{},{}", u16::from(other.record_type()), hex(format!("{other}").as_bytes())),
     }
 }
@@ -103,7 +110,7 @@ fn dump(origin: &Name, map: &BTreeMap<RrKey, RecordSet>) -> (String, Vec<String>
 // which texts have a model side
 
 const UNMODELLED_TYPES: &[&str] = &[
-    "cert", "csync", "ds", "https", "naptr", "openpgpkey", "smimea", "sshfp", "svcb", "tlsa",
+    "cert", "csync", "https", "naptr", "openpgpkey", "svcb",
 ];
 
 fn has_backslash_digit(t: &str) -> bool {
@@ -205,6 +212,70 @@ fn label_loadable(l: &[u8]) -> bool {
     l.first() != Some(&b'-') && l.iter().all(|c| c.is_ascii_alphanumeric() || matches!(c, b'-' | b'.'))
 }
 
+/// an entry states a CERT record whose base64 data is written in more than one piece (RFC 4398 2.2
+/// allows that; hickory decodes the first piece only): the word CERT followed, in the same entry, by
+/// more than four further items
+fn cert_data_split(text: &str) -> bool {
+    let (mut paren, mut comment, mut quote) = (false, false, false);
+    let mut words: Vec<String> = vec![];
+    let mut cur = String::new();
+    let check = |w: &Vec<String>| {
+        w.iter().position(|x| x.eq_ignore_ascii_case("CERT")).map(|k| w.len() - k - 1 > 4).unwrap_or(false)
+    };
+    let mut skip = false;
+    for c in text.chars().chain(std::iter::once('\n')) {
+        if skip {
+            // the character after a backslash
+            skip = false;
+            cur.push(c);
+            continue;
+        }
+        if c == '\\' && !comment {
+            skip = true;
+            cur.push(c);
+            continue;
+        }
+        if comment {
+            if c != '\n' {
+                continue;
+            }
+            comment = false;
+        }
+        if quote {
+            if c == '"' {
+                quote = false;
+            }
+            cur.push(c);
+            continue;
+        }
+        match c {
+            '"' => {
+                quote = true;
+                cur.push(c)
+            }
+            ';' | '(' | ')' | ' ' | '\t' | '\r' | '\n' => {
+                if !cur.is_empty() {
+                    words.push(std::mem::take(&mut cur));
+                }
+                match c {
+                    ';' => comment = true,
+                    '(' => paren = true,
+                    ')' => paren = false,
+                    '\n' if !paren => {
+                        if check(&words) {
+                            return true;
+                        }
+                        words.clear();
+                    }
+                    _ => {}
+                }
+            }
+            _ => cur.push(c),
+        }
+    }
+    check(&words)
+}
+
 fn expected_labels(expected: &str) -> Vec<Vec<u8>> {
     // every name token in an expected record is `F:<hex>.<hex>…`
     expected
@@ -224,6 +295,8 @@ fn classify(text: &str, expected: &str) -> &'static str {
         "escaped-semicolon-in-item"
     } else if labels.iter().any(|l| !label_loadable(l)) {
         "name-label-not-ldh"
+    } else if cert_data_split(text) {
+        "cert-base64-split"
     } else if scan(text.as_bytes()).decimal_escape {
         "decimal-escape-arithmetic"
     } else {
@@ -246,6 +319,9 @@ fn err_kind(e: &ParseError) -> String {
     s.split(|c: char| !c.is_ascii_alphanumeric()).next().unwrap_or("?").to_string()
 }
 
+/// per-case budget: a looping parser usually also allocates without bound, so keep it short
+const WATCHDOG_S: u64 = 10;
+
 fn run_impl(text: String, origin: Option<Name>) -> Ran {
     let (tx, rx) = mpsc::channel();
     let _ = std::thread::Builder::new().stack_size(16 << 20).spawn(move || {
@@ -262,7 +338,7 @@ fn run_impl(text: String, origin: Option<Name>) -> Ran {
         });
     });
     // watchdog: a hang is reported, the stuck thread is abandoned
-    rx.recv_timeout(Duration::from_secs(30)).unwrap_or(Ran::Hang)
+    rx.recv_timeout(Duration::from_secs(WATCHDOG_S)).unwrap_or(Ran::Hang)
 }
 
 pub fn exec(line: &str, rec: &mut Recorder) {
@@ -288,7 +364,15 @@ pub fn exec(line: &str, rec: &mut Recorder) {
     let exp_origin = t.get(4).copied().unwrap_or("-");
     let expected = t.get(5).copied().unwrap_or("-");
 
+    rec.announce(line);
     let ran = run_impl(text.clone(), origin);
+    if matches!(ran, Ran::Hang) {
+        // the implementation does not return on this text: name it and stop (the stuck thread cannot be
+        // killed; bin/check turns HANG.case into a VIOLATION whose replay is this case line)
+        let _ = std::fs::write(rec.out_dir.join("HANG.case"), format!("{line}\n"));
+        eprintln!("HANG: no result within {WATCHDOG_S} s on: {}", &line[..line.len().min(300)]);
+        std::process::exit(3);
+    }
     let has_model = model_applicable(flag, &text);
     let (out, norm, nrec) = match &ran {
         Ran::Ok(a, b, c, _) => (a.clone(), Some(b.clone()), *c),
@@ -383,6 +467,9 @@ enum GData {
     Txt(Vec<Vec<u8>>),
     Hinfo(Vec<u8>, Vec<u8>),
     Caa(u8, Vec<u8>, Vec<u8>),
+    /// TLSA / SMIMEA / DS / SSHFP / CERT / OPENPGPKEY: numeric fields, then binary data written in
+    /// hex or base64 — which the RFCs allow to be divided by white space anywhere
+    Blob(&'static str, Vec<u32>, Vec<u8>),
 }
 
 #[derive(Clone, Debug)]
@@ -434,6 +521,12 @@ impl GData {
             }
             GData::Hinfo(c, o) => format!("HINFO,{},{}", hex(c), hex(o)),
             GData::Caa(f, t, v) => format!("CAA,{},{},{},{}", f >> 7, f & 127, hex(t), hex(v)),
+            GData::Blob(k, nums, d) => {
+                let mut v = vec![k.to_string()];
+                v.extend(nums.iter().map(|n| n.to_string()));
+                v.push(hex(d));
+                v.join(",")
+            }
         }
     }
     fn names(&self) -> Vec<&GName> {
@@ -560,6 +653,41 @@ fn gen_ttl(r: &mut Rng) -> u32 {
 
 const NAME_TYPES: &[(&str, u16)] = &[("NS", 2), ("CNAME", 5), ("PTR", 12), ("ANAME", 65305)];
 
+fn gen_blob(r: &mut Rng, kind: &'static str) -> (&'static str, u16, GData) {
+    let n = match r.below(6) {
+        0 => 1,
+        1 => 2,
+        2 => 20,
+        3 => 32,
+        4 => r.range(48, 70),
+        _ => r.range(1, 40),
+    } as usize;
+    let data = r.bytes(n);
+    let b = |r: &mut Rng| if r.chance(1, 3) { r.byte() as u32 } else { r.below(5) as u32 };
+    let (code, nums): (u16, Vec<u32>) = match kind {
+        "TLSA" => (52, vec![b(r), b(r), b(r)]),
+        "SMIMEA" => (53, vec![b(r), b(r), b(r)]),
+        "DS" => (43, vec![r.next() as u16 as u32, if r.chance(1, 2) { *r.pick(&[1u32, 2, 3, 4, 5, 8, 13, 15, 252, 253, 254]) } else { r.byte() as u32 }, b(r)]),
+        "SSHFP" => (44, vec![b(r), b(r)]),
+        "CERT" => (37, vec![r.next() as u16 as u32, r.next() as u16 as u32, r.byte() as u32]),
+        _ => (61, vec![]),
+    };
+    (kind, code, GData::Blob(kind, nums, data))
+}
+
+fn base64(d: &[u8]) -> String {
+    const T: &[u8] = b"ABCDEFGHIJKLMNOPQRSTUVWXYZabcdefghijklmnopqrstuvwxyz0123456789+/";
+    let mut o = String::new();
+    for c in d.chunks(3) {
+        let v = (c[0] as u32) << 16 | (*c.get(1).unwrap_or(&0) as u32) << 8 | *c.get(2).unwrap_or(&0) as u32;
+        o.push(T[(v >> 18) as usize & 63] as char);
+        o.push(T[(v >> 12) as usize & 63] as char);
+        o.push(if c.len() > 1 { T[(v >> 6) as usize & 63] as char } else { '=' });
+        o.push(if c.len() > 2 { T[v as usize & 63] as char } else { '=' });
+    }
+    o
+}
+
 fn gen_records(r: &mut Rng, origin: &GName, wild: bool, clean: bool) -> Vec<GRec> {
     let class = *r.pick(&[1u16, 1, 1, 1, 1, 1, 1, 1, 3, 4]);
     let nsets = r.range(1, 5);
@@ -577,7 +705,7 @@ fn gen_records(r: &mut Rng, origin: &GName, wild: bool, clean: bool) -> Vec<GRec
         owners.push(owner.clone());
         let ttl = gen_ttl(r);
         let tname = |r: &mut Rng| if r.chance(3, 4) { gen_name_under(r, origin, wild) } else { gen_abs_name(r, wild) };
-        let kind = r.below(12);
+        let kind = if r.chance(1, 40) { 15 } else { r.below(15) };
         let n = if matches!(kind, 2 | 4) { 1 } else { r.range(1, 3) };
         for _ in 0..n {
             let (rtype, code, data): (&'static str, u16, GData) = match kind {
@@ -617,6 +745,16 @@ fn gen_records(r: &mut Rng, origin: &GName, wild: bool, clean: bool) -> Vec<GRec
                 5 => ("MX", 15, GData::Mx(if r.chance(1, 5) { r.next() as u16 } else { r.below(100) as u16 }, tname(r))),
                 6 => ("SRV", 33, GData::Srv(r.below(100) as u16, r.next() as u16, r.next() as u16, tname(r))),
                 10 => ("HINFO", 13, GData::Hinfo(gen_string(r, clean), gen_string(r, clean))),
+                12 => {
+                    let k = *r.pick(&["TLSA", "SMIMEA"]);
+                    gen_blob(r, k)
+                }
+                13 => gen_blob(r, "DS"),
+                14 => gen_blob(r, "SSHFP"),
+                15 => {
+                    let k = *r.pick(&["CERT", "OPENPGPKEY"]);
+                    gen_blob(r, k)
+                }
                 11 => {
                     let tag: Vec<u8> = if r.chance(3, 4) {
                         r.pick(&[&b"issue"[..], b"issuewild", b"iodef", b"contactemail"]).to_vec()
@@ -668,6 +806,8 @@ struct Printer<'a> {
     /// how names under the origin are written: 0 = random, 1 = always relative (never `@`),
     /// 2 = always absolute
     name_policy: u8,
+    /// put RDATA in parentheses more often than not
+    paren_bias: bool,
     /// avoid the layout hickory is known to mishandle (`\DDD` with DDD >= 10; and no names with
     /// arbitrary octets): every oracle failure in such a file is a new violation
     clean: bool,
@@ -864,6 +1004,63 @@ impl<'a> Printer<'a> {
             GData::Txt(ss) => ss.iter().map(|s| self.char_string(s)).collect(),
             GData::Hinfo(c, o) => vec![self.char_string(c), self.char_string(o)],
             GData::Caa(f, t, v) => vec![f.to_string(), String::from_utf8(t.clone()).unwrap(), self.char_string(v)],
+            GData::Blob(kind, nums, data) => {
+                let mut v: Vec<String> = nums.iter().map(|n| n.to_string()).collect();
+                if *kind == "DS" && self.r.chance(1, 2) {
+                    // RFC 4034 appendix A.1 mnemonics
+                    if let Some(m) = [(1u32, "RSAMD5"), (2, "DH"), (3, "DSA"), (4, "ECC"), (5, "RSASHA1"), (252, "INDIRECT"), (253, "PRIVATEDNS"), (254, "PRIVATEOID")]
+                        .iter()
+                        .find(|(n, _)| *n == nums[1])
+                    {
+                        self.tag("ds.algorithm-mnemonic");
+                        v[1] = m.1.to_string();
+                    }
+                }
+                let b64 = matches!(*kind, "CERT" | "OPENPGPKEY");
+                let text: String = if b64 {
+                    base64(data)
+                } else {
+                    data.iter()
+                        .flat_map(|b| [b >> 4, b & 15])
+                        .map(|n| {
+                            let c = b"0123456789abcdef"[n as usize] as char;
+                            if self.r.chance(1, 3) { c.to_ascii_uppercase() } else { c }
+                        })
+                        .collect()
+                };
+                // "whitespace is allowed within the hexadecimal text" (RFC 4034 5.3, RFC 6698 2.2), "may be
+                // divided into any number of white-space-separated substrings" (RFC 4398 2.2): hickory
+                // joins the pieces for TLSA / SMIMEA / DS; it takes only the first piece of a CERT (known
+                // finding, not in clean files) and refuses more than one for SSHFP / OPENPGPKEY (no RFC
+                // text allows splitting those: written in one piece)
+                let splittable = matches!(*kind, "TLSA" | "SMIMEA" | "DS") || (*kind == "CERT" && !self.clean);
+                let mut cuts: Vec<usize> = vec![];
+                if splittable && text.len() > 1 && self.r.chance(3, 4) {
+                    let k = self.r.range(1, 5.min(text.len() as u64 - 1)) as usize;
+                    for _ in 0..k {
+                        cuts.push(self.r.range(1, text.len() as u64 - 1) as usize);
+                    }
+                    let unit = if b64 { 4 } else { 2 };
+                    if self.r.chance(1, 2) && text.len() > unit {
+                        // force a break inside a byte / a base64 quantum
+                        let q = self.r.below((text.len() / unit) as u64) as usize;
+                        cuts.push(q * unit + 1 + self.r.below(unit as u64 - 1) as usize);
+                    }
+                    cuts.sort();
+                    cuts.dedup();
+                    cuts.retain(|c| *c > 0 && *c < text.len());
+                    self.tag("data.split");
+                    if cuts.iter().any(|c| c % unit != 0) {
+                        self.tag("data.split-inside-unit");
+                    }
+                }
+                let mut prev = 0;
+                for c in cuts.iter().chain(std::iter::once(&text.len())) {
+                    v.push(text[prev..*c].to_string());
+                    prev = *c;
+                }
+                v
+            }
         }
     }
 
@@ -974,7 +1171,7 @@ impl<'a> Printer<'a> {
         line.push_str(&self.mixed_case(rec.rtype));
         // RDATA, optionally with a parenthesised group spanning lines
         let fields = self.rdata_fields(&rec.data);
-        let paren = self.r.chance(1, 4);
+        let paren = if self.paren_bias { self.r.chance(2, 3) } else { self.r.chance(1, 4) };
         let (i, j) = if paren {
             let i = self.r.below(fields.len() as u64 + 1) as usize;
             let j = self.r.range(i as u64, fields.len() as u64) as usize;
@@ -1058,6 +1255,7 @@ fn render(r: &mut Rng, origin: &GName, recs: &[GRec], clean: bool) -> (String, G
         tags: vec![],
         name_ddd: false,
         name_policy: 0,
+        paren_bias: false,
         clean,
     };
     p.filler();
@@ -1112,6 +1310,7 @@ fn render_plan(r: &mut Rng, origin: &GName, plan: &[Step]) -> (String, GName, Ve
         tags: vec![],
         name_ddd: false,
         name_policy: 0,
+        paren_bias: true,
         clean: true,
     };
     let nrec = plan.iter().filter(|s| matches!(s, Step::Rec(..))).count();
@@ -1316,6 +1515,109 @@ fn origin_switch_case(r: &mut Rng) -> String {
     case_line("m", &loader, &text, Some((&final_origin, &recs)))
 }
 
+/// records whose RDATA ends in hex / base64 data, the data split at random offsets, mostly inside
+/// parenthesised continuation lines with comments: must load to the same bytes as the unsplit form
+fn split_data_case(r: &mut Rng) -> (String, Vec<&'static str>) {
+    let origin = simple_origin(r);
+    let mut plan = vec![Step::Filler];
+    let mut recs: Vec<GRec> = vec![];
+    let ttl = r.range(1, 99999) as u32;
+    for _ in 0..r.range(1, 3) {
+        let kind = *r.pick(&["TLSA", "TLSA", "SMIMEA", "DS", "DS", "SSHFP", "CERT", "OPENPGPKEY"]);
+        let (rtype, code, data) = gen_blob(r, kind);
+        let owner = {
+            let mut ls = vec![gen_alnum_label(r, 3)];
+            ls.extend(origin.0.iter().cloned());
+            GName(ls)
+        };
+        let rec = GRec { owner, rtype, code, class: 1, ttl, data };
+        if recs.iter().any(|x| x.owner.tok_lower() == rec.owner.tok_lower()) {
+            continue;
+        }
+        recs.push(rec.clone());
+        plan.push(Step::Rec(rec, 0));
+        if r.chance(1, 3) {
+            plan.push(Step::Filler);
+        }
+    }
+    let (text, final_origin, tags) = render_plan(r, &origin, &plan);
+    (case_line("m", &origin, &text, Some((&final_origin, &recs))), tags)
+}
+
+/// parentheses at the edges of the syntax: several groups per record, parentheses inside quoted
+/// strings and comments (must load); "(" inside "(", ")" without "(", deep nesting, groups left
+/// open at the end of the text, with quotes / comments / line ends in between (Ok or Err, no hang)
+fn paren_edge_case(r: &mut Rng) -> String {
+    let origin = simple_origin(r);
+    let own = String::from_utf8(gen_alnum_label(r, 3)).unwrap();
+    let o = {
+        let mut ls = vec![own.clone().into_bytes()];
+        ls.extend(origin.0.iter().cloned());
+        GName(ls)
+    };
+    let txt = |strs: &[&[u8]]| GRec {
+        owner: o.clone(),
+        rtype: "TXT",
+        code: 16,
+        class: 1,
+        ttl: 60,
+        data: GData::Txt(strs.iter().map(|s| s.to_vec()).collect()),
+    };
+    let nl = if r.chance(1, 2) { "\n" } else { " " };
+    if r.chance(2, 5) {
+        // well-formed: the expectation is stated
+        let (text, rec): (String, GRec) = match r.below(7) {
+            0 => (format!("{own} 60 TXT ( a ){nl}( b ) c\n").replace(&format!("){nl}("), ") ("), txt(&[b"a", b"b", b"c"])),
+            1 => (format!("{own} 60 TXT ( a{nl}) ({nl}b ) ( ) c\n"), txt(&[b"a", b"b", b"c"])),
+            2 => (format!("{own} 60 TXT \"( x\" \")\" \"((\"\n"), txt(&[b"( x", b")", b"(("])),
+            3 => (format!("{own} 60 TXT ( \"a(b\"{nl}\")\" ) \"(\"\n"), txt(&[b"a(b", b")", b"("])),
+            4 => (format!("; ( ( (\n{own} 60 TXT a ; ) ) ( \n ; )\n"), txt(&[b"a"])),
+            5 => (format!("{own} 60 TXT ( a ; ( ) (( \n b ; )\n )\n"), txt(&[b"a", b"b"])),
+            _ => (format!("{own} 60 TXT ( ){nl}( ) a ( )\n").replace(&format!("){nl}("), ") ("), txt(&[b"a"])),
+        };
+        return case_line("m", &origin, &text, Some((&origin, &[rec])));
+    }
+    // not well-formed, or not defined by the RFC: Ok or Err, never a panic or a hang
+    let mut s = format!("{own} 60 TXT ");
+    match r.below(4) {
+        0 => {
+            // deep nesting, closed or not
+            let n = *r.pick(&[2usize, 3, 10, 100, 1000]);
+            for _ in 0..n {
+                { let w: &&str = r.pick(&["(", "( ", "(\n", "(a "][..]); s.push_str(w); }
+            }
+            s.push_str("x ");
+            let m = *r.pick(&[0usize, 1, n - 1, n, n + 1]);
+            for _ in 0..m {
+                { let w: &&str = r.pick(&[")", " )", "\n)"][..]); s.push_str(w); }
+            }
+            if r.chance(1, 2) {
+                s.push('\n');
+            }
+        }
+        _ => {
+            let toks = [
+                "(", ")", "((", "))", "()", ")(", "( (", "a", "b ", " ", "\n", "\"q(\"", "\"q)\"", "\"", "; c (\n", "; c )\n", ";(", "(a", "a)", "(\"", "\")",
+                "\\(", "\\)", "@", "$TTL", "60", "TXT",
+            ];
+            for _ in 0..r.range(1, 14) {
+                let w: &&str = r.pick(&toks[..]);
+                s.push_str(w);
+                if r.chance(1, 2) {
+                    s.push(' ');
+                }
+            }
+            if r.chance(1, 2) {
+                s.push('\n');
+            }
+            if r.chance(1, 3) {
+                s.push_str(&format!("{own}2 60 A 1.2.3.4\n"));
+            }
+        }
+    }
+    case_line("m", &origin, &s, None)
+}
+
 // ------------------------------------------------------------------------------------------------
 // generator: malformed stream
 
@@ -1482,7 +1784,7 @@ fn adversarial() -> Vec<String> {
 }
 
 pub fn run(o: &Opts, rec: &mut Recorder) {
-    rec.rule = "zone texts: (a) random record sets of A/AAAA/NS/CNAME/PTR/ANAME/MX/SOA/SRV/TXT/HINFO/CAA printed by an independent RFC 1035 §5 printer with per-line random layout, (a') names at the length limits (253-256 octets, labels of 63/64) written absolutely and origin-relative in every name position, and the same relative names repeated across $ORIGIN changes, (b) mutations of those, (c) token soup, repeated RRset edits and garbage; a case is non-trivial when the text loaded to >= 1 record or is a malformed-stream text of >= 10 characters; distinct by case line".into();
+    rec.rule = "zone texts: (a) random record sets of A/AAAA/NS/CNAME/PTR/ANAME/MX/SOA/SRV/TXT/HINFO/CAA printed by an independent RFC 1035 §5 printer with per-line random layout, (a') names at the length limits (253-256 octets, labels of 63/64) written absolutely and origin-relative in every name position, and the same relative names repeated across $ORIGIN changes, (a'') records with hex / base64 data split at random offsets over parenthesised lines, and parenthesis edge cases (several groups, parentheses in strings and comments, nesting, groups open at the end), (b) mutations of those, (c) token soup, repeated RRset edits and garbage; a case is non-trivial when the text loaded to >= 1 record or is a malformed-stream text of >= 10 characters; distinct by case line".into();
     for l in o.pre_lines.clone() {
         exec(&l, rec);
     }
@@ -1514,7 +1816,21 @@ pub fn run(o: &Opts, rec: &mut Recorder) {
                 rec.stat("stream.origin-switch");
                 exec(&origin_switch_case(&mut r), rec);
             }
-            0..=4 => {
+            4 if (i / 10) % 2 == 0 => {
+                rec.stat("stream.split-data");
+                let (line, tags) = split_data_case(&mut r);
+                for t in &tags {
+                    if t.starts_with("data.") || t.starts_with("parens") {
+                        rec.stat(&format!("split-data.{t}"));
+                    }
+                }
+                exec(&line, rec);
+            }
+            4 => {
+                rec.stat("stream.paren-edges");
+                exec(&paren_edge_case(&mut r), rec);
+            }
+            0..=3 => {
                 rec.stat(if clean { "stream.rendered-clean" } else { "stream.rendered-any" });
                 for t in &tags {
                     rec.stat(&format!("layout.{t}"));
